@@ -1,0 +1,140 @@
+//go:build verif
+
+package cache
+
+import (
+	"fmt"
+	"sync/atomic"
+	"unsafe"
+)
+
+// This file is compiled only with the "verif" build tag.  It adds a read-only
+// inspector used by the external runtime monitors; nothing in the package
+// calls it.
+
+// VerifEntry is one live cache entry as seen by [VerifInspect].
+type VerifEntry struct {
+	Key []byte
+	Val []byte
+}
+
+// VerifSnapshot is a consistent view of a cache taken under its own lock.
+type VerifSnapshot struct {
+	// Entries are the live entries.  With LRU enabled they are in usage-list
+	// order, least recently used first; otherwise the order is unspecified.
+	Entries []VerifEntry
+
+	// Problems lists violated structural invariants of the map, the intrusive
+	// list and the byte accounting.
+	Problems []string
+
+	Size  uint
+	Count int
+	Hit   int
+	Miss  int
+
+	MaxSize  uint
+	MaxCount uint
+	LRU      bool
+}
+
+// VerifInspect walks c under its own mutex and reports its contents and any
+// structural inconsistency.  c must have been created by [New].
+func VerifInspect(c Cache) (s VerifSnapshot) {
+	cc, ok := c.(*cache)
+	if !ok {
+		s.Problems = append(s.Problems, fmt.Sprintf("not a *cache: %T", c))
+
+		return s
+	}
+
+	cc.lock.Lock()
+	defer cc.lock.Unlock()
+
+	s.Size, s.Count = cc.size, len(cc.items)
+	s.Hit, s.Miss = int(atomic.LoadInt32(&cc.hit)), int(atomic.LoadInt32(&cc.miss))
+	s.MaxSize, s.MaxCount, s.LRU = cc.conf.MaxSize, cc.conf.MaxCount, cc.conf.EnableLRU
+
+	bad := func(format string, args ...any) {
+		if len(s.Problems) < 16 {
+			s.Problems = append(s.Problems, fmt.Sprintf(format, args...))
+		}
+	}
+
+	var sum uint
+	if cc.conf.EnableLRU {
+		seen := map[*item]bool{}
+		steps := 0
+		prev := &cc.usage
+		for cur := cc.usage.next; cur != &cc.usage; cur = cur.next {
+			if steps++; steps > len(cc.items)+2 {
+				bad("usage list longer than the map (%d items) or cyclic", len(cc.items))
+
+				break
+			}
+
+			if cur == nil {
+				bad("nil link after %d list steps", steps)
+
+				break
+			}
+
+			if cur.prev != prev {
+				bad("list node %d: prev link does not point to its predecessor", steps)
+			}
+
+			it := (*item)(structPtr(unsafe.Pointer(cur), unsafe.Offsetof(item{}.used)))
+			if seen[it] {
+				bad("list node %d visited twice", steps)
+
+				break
+			}
+
+			seen[it] = true
+			if mapped, in := cc.items[string(it.key)]; !in {
+				bad("list node %d (key %q) is not in the map", steps, it.key)
+			} else if mapped != it {
+				bad("list node %d (key %q): the map holds a different item for the key", steps, it.key)
+			}
+
+			s.Entries = append(s.Entries, VerifEntry{Key: it.key, Val: it.value})
+			sum += uint(len(it.key) + len(it.value))
+			prev = cur
+		}
+
+		if cc.usage.prev != prev && len(s.Problems) == 0 {
+			bad("sentinel prev link does not point to the last node")
+		}
+
+		if len(seen) != len(cc.items) && len(s.Problems) == 0 {
+			bad("usage list has %d nodes but the map has %d items", len(seen), len(cc.items))
+		}
+	} else {
+		if cc.usage.next != &cc.usage || cc.usage.prev != &cc.usage {
+			bad("usage list is not empty although LRU is disabled")
+		}
+
+		for k, it := range cc.items {
+			if k != string(it.key) {
+				bad("map key %q holds an item with key %q", k, it.key)
+			}
+
+			s.Entries = append(s.Entries, VerifEntry{Key: it.key, Val: it.value})
+			sum += uint(len(it.key) + len(it.value))
+		}
+	}
+
+	if sum != cc.size {
+		bad("size counter is %d but live keys+values sum to %d", cc.size, sum)
+	}
+
+	if uint(len(cc.items)) > cc.conf.MaxCount {
+		bad("%d items exceed MaxCount %d", len(cc.items), cc.conf.MaxCount)
+	}
+
+	if cc.size > cc.conf.MaxSize {
+		bad("size %d exceeds MaxSize %d", cc.size, cc.conf.MaxSize)
+	}
+
+	return s
+}
